@@ -13,18 +13,28 @@ if r.returncode:
     sys.exit("patch does not apply: " + r.stderr)
 res = {}
 try:
-    for p in props:
+    from concurrent.futures import ThreadPoolExecutor
+
+    def one(p):
         q = subprocess.run([os.path.join(VERIF, "check"), p, "--tier", "quick"], capture_output=True, text=True, cwd=VERIF)
         lines = [l for l in q.stdout.splitlines() if l.startswith(("VIOLATION", "  rule", "  instance", "  ")) and "conda" not in l]
-        res[p] = (q.returncode, lines)
+        return p, (q.returncode, lines)
+    # the first check builds the facts of the patched tree; the others then share them
+    if props:
+        p0, r0 = one(props[0])
+        res[p0] = r0
+    with ThreadPoolExecutor(int(os.environ.get("RUN_SEED_JOBS", "8"))) as ex:
+        for p, r in ex.map(one, props[1:]):
+            res[p] = r
 finally:
     subprocess.run(["git", "-C", "/repo", "checkout", "--", "."], check=True)
     # evidence files must describe the unchanged tree: re-run the checks that fired
-    for p, (rc, _) in res.items():
-        if rc != 0:
-            subprocess.run([os.path.join(VERIF, "check"), p, "--tier", "quick"], capture_output=True, cwd=VERIF)
-caught = [p for p, (rc, _) in res.items() if rc == 1]
-broken = [p for p, (rc, _) in res.items() if rc == 2]
+    again = [p for p, (rc, _) in res.items() if rc != 0]
+    from concurrent.futures import ThreadPoolExecutor as _T
+    with _T(8) as ex:
+        list(ex.map(lambda p: subprocess.run([os.path.join(VERIF, "check"), p, "--tier", "quick"], capture_output=True, cwd=VERIF), again))
+caught = [p for p in props if res.get(p, (0,))[0] == 1]
+broken = [p for p in props if res.get(p, (0,))[0] == 2]
 print("CAUGHT-BY:", " ".join(caught) or "-")
 if broken:
     print("ANALYSIS-BROKEN:", " ".join(broken))
